@@ -11,10 +11,12 @@ PROPS = {}
 
 PROPS["C02"] = {
     "kani": ["dec_payload", "dec_matchers"],
-    "verus": ["numdec"],
+    "verus": ["numdec", "utf8stream"],
     "technique": "Verus contracts on number_decode / utf8_decode (unbounded); Kani/CBMC harnesses on the payload decoders with number_decode replaced by its proved contract",
     "level_text": "Proved (Verus, all inputs): number_decode returns the saturated decimal value of every digit string of any length and None otherwise, without overflow; "
                   "utf8_decode on every automaton-shaped sequence returns exactly the encoded scalar value or U+FFFD, never an invalid char. "
+                  "Proved (Verus, unit utf8stream, any byte stream): the standalone Utf8Decoder::decode never indexes its 4-byte buffer out of range and returns, for every input, exactly what the byte-wise fold over the "
+                  "automaton's transition function prescribes (character, error or 'need more'), consuming exactly the bytes up to that point - for every automaton that accepts within four bytes. "
                   "Proved (Kani, all usize): keyboard_decode_key, sgr_color. Payload decoders (mouse, cursor report, DECRPM, size, kitty keyboard/image; paste in the thorough tier) are checked for every "
                   "numeric value on fixed sequence templates (bounded stand-ins, listed under bounded_checks, not counted as proved). "
                   "The DFA walk, rescheduling, raw-event framing, termination and the tty read loop are NOT decided.",
@@ -22,6 +24,8 @@ PROPS["C02"] = {
     "assumptions": [
         "the byte-at-a-time DFA walk (MatcherDecoder) and NFA compilation are outside both verifiers: totality/termination of the walk, 'None when exhausted' and raw events being non-empty in-order slices are assumed, not decided",
         "utf8_shape (first-byte class + 10xxxxxx tails) is what utf8_nfa accepts: assumed",
+        "unit utf8stream: the compiled UTF8DFA is an abstract DFA (uninterpreted start/transition/accepting) whose states are layered by bytes read and whose incomplete sequences have at most three bytes (axiom_dfa_depth, assumed); "
+        "the BufRead source is io::Cursor<&[u8]> specified by its contract (fill_buf lends all remaining bytes without changing the cursor, consume(n) advances)",
         "payload decoder harnesses replace number_decode by a stub justified by its Verus contract; each covers one sequence template (bounded in shape, complete in numeric values)",
         "TermCapMatcher, DeviceAttrsMatcher (BTreeMap/BTreeSet), ReportSettingMatcher (a harness on it crashes kani-compiler 0.68), OSControlMatcher and parse_color (str parsing: harnesses were built and withdrawn, CBMC does not finish): not under contract",
     ],
@@ -218,19 +222,28 @@ PROPS["C20"] = {
 
 PROPS["C09"] = {
     "kani": [],
-    "verus": ["celllayout", "putcell"],
-    "technique": "Verus contract on the single layout routine Cell::layout (shared by measuring and writing), extracted verbatim; containment argument through the C07 contracts is by reading, not mechanised",
+    "verus": ["celllayout", "putcell", "utf8stream"],
+    "technique": "Verus contracts on the single layout routine Cell::layout, on TerminalWriter::put_cell over the ghost window model of surfaces shared with C07 (frame condition), and on the streaming Utf8Decoder::decode against a byte-wise fold with chunk-independence lemmas; all extracted from the real code",
     "level_text": "Proved (Verus, every cell size, width, wrap mode, cursor and tracked size): Cell::layout keeps the writer invariant cursor.col <= max_width and size.width <= max_width, the tracked size is a "
-                  "monotonically growing bounding box that covers every placed cell, a cell is placed at the cursor when it fits, else (wrapping only) at column 0 of the next row, and nothing is placed exactly for "
+                  "monotonically growing bounding box that covers every placed cell, a cell is placed at the cursor when it fits, else (wrapping only) at column 0 of the next row (r == place(..)), and nothing is placed exactly for "
                   "newline / CR / tab, zero-sized cells and overflow with wrapping disabled; newline, CR and tab move the cursor as specified; no arithmetic overflow for screen-sized numbers. "
-                  "TerminalWriter::put_cell writes only through surf.get_mut(pos) and data[shape.offset(in-window position)], which C07 proves in-window - that step, the glyph fallback, Text::layout/render agreement "
-                  "('every printable cell exactly once in reading order') and chunk independence of the io::Write adapters (DFA/UTF-8 decoders) are NOT decided.",
-    "level_note": "Thin: only Cell::layout is under contract; Cell::size (unicode-width, glyph, image geometry) is an uninterpreted function; Face/Image/Glyph/ViewContext are opaque stand-ins (N18).",
+                  "Proved (Verus, unit putcell; every window - plain, offset, strided, transposed - of every canvas, every writer state satisfying the invariant): TerminalWriter::put_cell changes no cell outside the window of the surface "
+                  "it was given (frame), writes a positioned cell exactly at place(..) with kind = the cell's kind and face = overlay, changing nothing else; returns false exactly when the position is not in the window; a cell without a "
+                  "position never fails and never changes any cell's content (only faces of skipped cells); the fill loop indexes the buffer in range; 'out of space' is permanent (a put fails only once the cursor has left the window "
+                  "downwards, the cursor row never decreases, and from such a state no put changes any cell), which is what makes dropping the rest of a buffer after a failed put independent of the split. "
+                  "Proved (Verus, unit utf8stream): Utf8Decoder::decode equals the byte-wise fold `run`; lemma_run_concat_more / lemma_run_concat_out: a chunk that produced nothing leaves a state from which the next chunk continues "
+                  "exactly as if both had been one buffer, and what a chunk produced does not depend on the bytes after it - cuts inside a UTF-8 character do not change the characters delivered. "
+                  "The glyph fallback path of put_cell, Cell::size (unicode-width / glyph / image geometry), the io::Write loops that join decoder and put_char, the escape-sequence writer (TTYCellWriter) and "
+                  "Text::layout/render agreement ('every printable cell exactly once in reading order') are NOT decided.",
+    "level_note": "Cell::size is an uninterpreted function; Face/Image/Glyph/ViewContext/Utf8Decoder-in-writer are opaque stand-ins (N18); the glyph-fallback prelude of put_cell is cut off by precondition (N16); SurfaceMutView operations are used through the contracts proved in unit surface.",
     "assumptions": [
-        "Cell::size returns some Size (uninterpreted); coordinates are below 2^48 (screen-sized), so sums cannot overflow",
-        "TerminalWriter::put_cell / TerminalWritable / Text::{layout,render} and the UTF-8 / escape-sequence decoders inside the io::Write adapters are not under contract "
-        "(a Kani harness for put_cell was built and withdrawn: overwriting a Cell runs the drop glue of CellKind, whose discriminant lives in the niche of `char`; CBMC cannot fold it and unrolls the recursive drop of rasterize::Scene without end - no verdict in 15 min even on a 2x2 window; "
-        "Verus cannot express the Option<&mut Cell> that get_mut hands back)",
+        "Cell::size returns some Size (uninterpreted); coordinates are below 2^24 and strides/start below 2^32 (screen-sized), so sums cannot overflow",
+        "put_cell: the call does not take the glyph-fallback path (terminal has glyph support or the cell is not a glyph): precondition; that path recurses through a closure over str::chars and is outside the dialect",
+        "put_cell: SurfaceMutView::{shape,size,get_mut,data_mut} are specified by the contracts that unit surface proves for the Surface/SurfaceMut default methods (get_mut added there); the forwarding impls for SurfaceMutView are trusted",
+        "derived PartialEq on Position (`cursor_start != self.cursor`) has no specification in Verus: both outcomes are covered",
+        "utf8stream: UTF8DFA is an abstract DFA with the layering/length axiom; source is io::Cursor<&[u8]> by contract; utf8_decode is 'a function of the bytes' here (its own contract is proved in unit numdec)",
+        "TerminalWriter::write / Utf8CellWriter::write / TTYCellWriter::write loops, TerminalWritable, Text::{layout,render}: not under contract "
+        "(a Kani harness for put_cell was built and withdrawn: overwriting a Cell runs the drop glue of CellKind, whose discriminant lives in the niche of `char`; CBMC unrolls the recursive drop of rasterize::Scene without end)",
         "writer invariant cursor.col <= max_width, size.width <= max_width holds initially (TerminalWriter::new starts from origin and empty size)",
     ],
 }
